@@ -31,7 +31,10 @@ def run(cx, chk):
     chk.rule("C09.R2", "delta = 1 unless the opposite ghost list is longer, then the integer quotient of the ghost lengths (read before any event)")
     chk.rule("C09.R3", "routing + replace predicate justified on the path + flag per call site + victim to the matching ghost list + fallback")
     chk.rule("C09.R4", "ghost hit ordering: the hit node leaves its ghost list before anything is inserted into that list")
+    chk.rule("C09.R5", "non-use operations (peek*, contains, len, per-segment accessors, ...) reach no mutation: they neither promote nor refresh")
+    chk.rule("C09.R6", "purge empties every retained list of the cache")
     for cfg, F in cx.cfgs():
+        composite.policy_hygiene(cx, chk, cfg, F, "AdaptiveCache", "C09.R5", "C09.R6")
         writers(cx, chk, cfg, F)
         for name in ("put", "get", "get_mut"):
             route(cx, chk, cfg, F, composite.cache_method(F, ADT, name), name)
